@@ -276,9 +276,11 @@ pub fn run_faulted(world: &mut World, cfg: &tower::TowerCfg, ops: &[Op], base_sn
                         let failed: Vec<bitcoin::BlockHash> = cs.undownloadable.keys().cloned().collect();
                         if let (Some(lkb), Some(f)) = (lkb, failed.first()) {
                             let fh = cs.blocks[f].height;
-                            let lh = cs.blocks.iter().find(|(k, _)| AsRef::<[u8]>::as_ref(*k) == &lkb[..]).map(|(_, sb)| sb.height);
-                            if let Some(lh) = lh {
-                                if lh >= fh {
+                            // the persisted block counts only if it is on the node's active chain: after a reorg the tower may
+                            // rightly keep the tip it was disconnecting (a restart then handles the reorg from scratch)
+                            let lh = cs.blocks.iter().find(|(k, _)| AsRef::<[u8]>::as_ref(*k) == &lkb[..]).map(|(k, sb)| (sb.height, cs.active.get(sb.height as usize) == Some(k)));
+                            if let Some((lh, on_active_chain)) = lh {
+                                if lh >= fh && on_active_chain {
                                     return Some((
                                         "C03:last-known-block-persisted-ahead-of-processing".into(),
                                         format!("the download of the block at height {fh} failed during operation #{did} (a poll towards height {}), so blocks from {fh} on were not processed, yet the tower persisted height {lh} as its last known block: a restart now skips the unprocessed blocks", cs.height()),
